@@ -16,6 +16,9 @@
 -/
 import DiskfsModel.Proofs.Detect
 import DiskfsModel.Proofs.DetectFat32
+import DiskfsModel.Proofs.DetectMid
+import DiskfsModel.Proofs.DetectTable
+import DiskfsModel.Model.Sqfs.Regions
 import DiskfsModel.Generated.Detect
 set_option linter.unusedSimpArgs false
 namespace Diskfs.Detect.C12
@@ -507,5 +510,185 @@ theorem probe_create_fat32_repo (stale : Dev) (size avail bs0 serial : Nat) (lab
 example : layout32 genParams 67108864 512 ≠ none := by decide       -- 64 MiB, 512-byte sectors
 example : layout32 genParams 67108864 4096 ≠ none := by decide      -- 4096-byte sectors
 example : layout32 genParams 40960 512 = none := by decide          -- less than 32 KiB of data area: refused
+
+/-! ### squashfs and ext4: the readers' tests behind the magic numbers are inside the model
+
+  `midCtx` (Model/DetectMid.lean): parseSuperblock's block-log test and newCompressor's id test for squashfs;
+  superblockFromBytes, the feature gate, the validity checks on the decoded superblock and the read of the
+  group descriptor table for ext4; the volume-descriptor loop for iso9660.  `deep2 k` is what is left of
+  reader k behind that (observed from the real code in the correspondence, a hypothesis here). -/
+
+/-- squashfs.Finalize writes the superblock LAST, at offset 0 (Model/Sqfs/Regions.lean `finalize`, the mirror
+    Props/C07 is about): every write list of that shape ends with 96 bytes at offset 0 -/
+theorem sqfs_finalize_sb_last (p : Sqfs.Pieces) (ws : List Wr) (h : shape ws = (Sqfs.finalize p).writes) :
+    ∃ pre data, ws = pre ++ [⟨0, data⟩] ∧ data.length = 96 := by
+  have hf : ∃ a, (Sqfs.finalize p).writes = a ++ [(0, 96)] := ⟨_, rfl⟩
+  obtain ⟨a, ha⟩ := hf
+  rw [ha] at h
+  unfold shape at h
+  obtain ⟨l1, l2, rfl, _, h2⟩ := List.map_eq_append_iff.1 h
+  cases l2 with
+  | nil => simp at h2
+  | cons w r =>
+    cases r with
+    | cons _ _ => simp at h2
+    | nil =>
+      simp only [List.map_cons, List.map_nil, List.cons.injEq, Prod.mk.injEq, and_true] at h2
+      obtain ⟨o, d⟩ := w
+      simp only at h2
+      obtain ⟨rfl, hd⟩ := h2
+      exact ⟨l1, d, rfl, hd⟩
+
+/-- probe_create_sqfs: whatever the volume held before and whatever Finalize wrote first (`pre`), once its
+    last write has put the superblock `Sqfs.encodeSB s` at offset 0 - any superblock with a block size
+    squashfs.Create accepts and a compression id the library knows - the three FAT readers refuse the volume
+    (byte 12, where they look for the high byte of the sector size, is the low byte of the block size: zero),
+    squashfs.Read's header tests, block-log test and compressor test pass, and the probe chain answers
+    squashfs provided the rest of squashfs.Read (tables, root inode: `deep2`) accepts - for every order with
+    squashfs before ext4 and iso9660 -/
+theorem probe_create_sqfs (P : Params) (order : List Kind) (hord : orderCore order = true)
+    (hsi : before order .squashfs .iso9660 = true) (cfg : Ext4.Reader.Cfg)
+    (stale : Dev) (pre : List Wr) (s : Sqfs.Superblock) (hwf : s.WF) (hblk : sqfsBlockOk s.blocksize = true)
+    (hcomp : s.compression ≤ 6) (size avail bs0 : Nat) (csumOk : Bool) (hav : 96 ≤ avail)
+    (hbs : (if bs0 == 0 then 131072 else bs0) ≥ 4096 ∧ (if bs0 == 0 then 131072 else bs0) ≤ 1048576 ∧
+           isPow2 (if bs0 == 0 then 131072 else bs0) = true)
+    (deep2 : Kind → Verdict) (hdeep : deep2 .squashfs = .accept) :
+    probe (verdict P (applyWrs stale (pre ++ [⟨0, Sqfs.encodeSB s⟩]))
+      (midCtx cfg (applyWrs stale (pre ++ [⟨0, Sqfs.encodeSB s⟩])) size avail bs0 csumOk deep2)) order = .found .squashfs := by
+  obtain ⟨h12, hv⟩ := sqfs_image_facts stale pre s hwf (sqfsBlockOk_mod _ hblk) hcomp avail bs0 hav hbs (deep2 .squashfs)
+  apply probe_create_sqfs_hdr P order hord hsi _ _ h12
+  simp only [verdict, midCtx]
+  rw [hv]
+  exact hdeep
+
+/-- … in /repo's current probe order (squashfs before ext4 and iso9660 since fix d5f1fcf) -/
+theorem probe_create_sqfs_repo (cfg : Ext4.Reader.Cfg)
+    (stale : Dev) (pre : List Wr) (s : Sqfs.Superblock) (hwf : s.WF) (hblk : sqfsBlockOk s.blocksize = true)
+    (hcomp : s.compression ≤ 6) (size avail bs0 : Nat) (csumOk : Bool) (hav : 96 ≤ avail)
+    (hbs : (if bs0 == 0 then 131072 else bs0) ≥ 4096 ∧ (if bs0 == 0 then 131072 else bs0) ≤ 1048576 ∧
+           isPow2 (if bs0 == 0 then 131072 else bs0) = true)
+    (deep2 : Kind → Verdict) (hdeep : deep2 .squashfs = .accept) :
+    probe (verdict genParams (applyWrs stale (pre ++ [⟨0, Sqfs.encodeSB s⟩]))
+      (midCtx cfg (applyWrs stale (pre ++ [⟨0, Sqfs.encodeSB s⟩])) size avail bs0 csumOk deep2)) genOrder = .found .squashfs :=
+  probe_create_sqfs genParams genOrder facts_agree_order_core (by decide) cfg stale pre s hwf hblk hcomp size avail bs0 csumOk hav hbs deep2 hdeep
+
+example : sqfsBlockOk 4096 = true ∧ sqfsBlockOk 131072 = true ∧ sqfsBlockOk 1048576 = true ∧ sqfsBlockOk 6000 = false := by decide
+example : (⟨3, 0, 131072, 1, 1, 0xC0, 1, 0, 4096, 4000, 2 ^ 64 - 1, 200, 300, 400, 500⟩ : Sqfs.Superblock).WF := by
+  simp [Sqfs.Superblock.WF]
+
+/-- ext4.Read's validity checks on the decoded superblock (fix 1d32ac0; Model/Ext4/SpecGeom.lean `readAccepts`,
+    pinned to the source by the regenerated `readChecks`) accept the geometry ext4.Create computes for EVERY
+    parameter set its own checks let through (Model/Ext4/Mkfs.lean `mkLayout`) with at least one inode per
+    group and three blocks, and the group descriptor table ext4.Read then reads lies inside the volume -/
+theorem ext4_read_accepts_mkfs (p : Ext4.Mkfs.Params) (l : Ext4.Mkfs.Layout) (h : Ext4.Mkfs.mkLayout p = .ok l)
+    (hipg : 0 < l.ipg) (hnb : 3 ≤ l.numBlocks) (compat inc ro : Nat)
+    (hinc : ext4MkIncompatOk inc (l.descSize == 64) = true) :
+    Ext4.Spec.readAccepts (ext4MkGeo (mkOf l) compat inc ro) p.size = true ∧
+    (ext4MkGeo (mkOf l) compat inc ro).gdtStartGo +
+      (ext4MkGeo (mkOf l) compat inc ro).gdSize * (ext4MkGeo (mkOf l) compat inc ro).groupsGo ≤ p.size :=
+  ext4_mk_read_accepts (mkOf l) p.size compat inc ro (mkLayout_mk_ok p l h hipg hnb) hinc
+
+/-- probe_create_ext4: ext4.Create clears bytes 0..1023 and writes nothing below 1024 afterwards (`rest`); if
+    the superblock it left at 1024 decodes to the geometry Create computed (`hgeo`, `hdec`: compared on every
+    ext4 Create of the run) with extents on and inline_data off, then over ARBITRARY previous content the FAT
+    readers and squashfs refuse, ext4.Read's header tests, superblock decoding, feature gate, validity checks
+    and descriptor-table read all pass, and the probe chain answers ext4 provided the descriptor checksums
+    (`deep2`) verify - in /repo's probe order -/
+theorem probe_create_ext4 (stale : Dev) (rest : List Wr) (hrest : ∀ w ∈ rest, 1024 ≤ w.off)
+    (cfg : Ext4.Reader.Cfg) (p : Ext4.Mkfs.Params) (l : Ext4.Mkfs.Layout) (h : Ext4.Mkfs.mkLayout p = .ok l)
+    (hipg : 0 < l.ipg) (hnb : 3 ≤ l.numBlocks) (compat inc ro : Nat)
+    (hinc : ext4MkIncompatOk inc (l.descSize == 64) = true)
+    (info : Ext4.Reader.SbInfo) (avail bs : Nat) (csumOk : Bool) (deep2 : Kind → Verdict)
+    (hgeo : Ext4.Spec.sbGeo (readAt (applyWrs stale (⟨0, zeros 1024⟩ :: rest)) 1024 1024) = some (ext4MkGeo (mkOf l) compat inc ro))
+    (hdec : Ext4.Reader.sbDecode csumOk (readAt (applyWrs stale (⟨0, zeros 1024⟩ :: rest)) 1024 1024) = some info)
+    (hii : info.incompat = inc)
+    (hsz : 2560 ≤ p.size) (hav : p.size ≤ avail) (hbs : bs = 0 ∨ bs = 512) (hdeep : deep2 .ext4 = .accept) :
+    probe (verdict genParams (applyWrs stale (⟨0, zeros 1024⟩ :: rest))
+      (midCtx cfg (applyWrs stale (⟨0, zeros 1024⟩ :: rest)) p.size avail bs csumOk deep2)) genOrder = .found .ext4 := by
+  obtain ⟨hacc, hfit⟩ := ext4_read_accepts_mkfs p l h hipg hnb compat inc ro hinc
+  apply probe_create_ext4_clears_repo stale rest hrest
+  generalize applyWrs stale (⟨0, zeros 1024⟩ :: rest) = img at hgeo hdec ⊢
+  have hgate : Ext4.Reader.gateAccepts cfg info.incompat = true := by
+    rw [hii]
+    simp only [ext4MkIncompatOk, Bool.and_eq_true, Bool.not_eq_true', beq_iff_eq] at hinc
+    simp [Ext4.Reader.gateAccepts, Ext4.Reader.incompatExtents, Ext4.Reader.incompatInlineData, hinc.1.1, hinc.1.2]
+  have hmid := ext4Mid_accepts cfg img p.size avail csumOk (deep2 .ext4) info _ hdec hgate hgeo hacc (by omega)
+  have hmagic := ext4_magic_of_geo img _ hgeo
+  have r1 : readOk avail 0 1024 = true := by simp [readOk]; omega
+  have r2 : readOk avail 1024 1024 = true := by simp [readOk]; omega
+  have hsz' : ¬ p.size < 2560 := by omega
+  simp only [verdict, midCtx, verdictExt4]
+  rw [hmid, hdeep]
+  rcases hbs with rfl | rfl <;> simp [r1, r2, hmagic, hsz']
+
+example : Ext4.Mkfs.mkLayout ⟨16777216, 0, 0, 0, 0, 0, true, true, true⟩ =
+    .ok { bs := 1024, numBlocks := 16384, bpg := 8192, groups := 2, ipg := 1024, inodeCount := 2048, fdb := 1, rsvGdt := 256,
+          descSize := 64, gdtBlocks := 1, itb := 256, flexSize := 8, resize := true } := rfl
+example : ext4MkIncompatOk 0x2c2 true = true := by decide
+
+/-! ### partition tables over the real acceptance conditions of gpt.Read and mbr.Read
+
+  `tableRead checks` (Model/DetectTable.lean) is partition.Read with Model/Gpt.lean's `read` (primary header and
+  array CRCs, backup fallback) and Model/Mbr.lean's `read`; `checks` is the regenerated switch
+  `tableReadChecksLegacyMBR` (false on the tree as it is: finding mbr-over-stale-gpt-reported-as-gpt, whose
+  proposed repair turns it on). -/
+
+/-- the boolean statements above (gpt_is_gpt_l, mbr_over_stale_gpt_is_mbr, cex_mbr_over_stale_gpt) are about the
+    real readers: the type partition.Read reports is `tableProbeL` of gpt.Read's and mbr.Read's verdicts and of
+    the legacy-MBR predicate on the real sector 0 -/
+theorem table_read_is_probe (checks : Bool) (c : Gpt.Cfg) (crc : Bytes → Nat) (d : Dev) (devSize lss : Nat)
+    (hnp : (Gpt.read c crc d devSize lss).1.isPanic = false) :
+    (tableRead checks c crc d devSize lss).kind =
+      tableProbeL checks (Gpt.read c crc d devSize lss).1.isOk (Mbr.read d devSize).1.isSome (legacyMBR d) genTableOrder := by
+  rw [facts_agree_table_order]
+  exact tableRead_kind checks c crc d devSize lss hnp
+
+/-- AS THE TREE IS (no legacy check): a disk on which gpt.Table.Write completed - a fresh table of well-formed
+    entries - reads as GPT through partition.Read, with the partitions Write was left with, WHATEVER the disk
+    held before: any MBR in sector 0 (legacy or protective, Write asked to put a protective one or not), any
+    stale table.  `crc` is any function below 2^32. -/
+theorem gpt_written_is_gpt (c : Gpt.Cfg) (crc : Bytes → Nat) (hcrc : ∀ b, crc b < Gpt.two32) (d : Dev)
+    (t0 : Gpt.Table) (size : Nat) (ws : List Wr) (t : Gpt.Table)
+    (hf : Gpt.Fresh t0) (hlss : t0.lss = 512 ∨ t0.lss = 4096) (hg : t0.guid.length = 16)
+    (hwf : ∀ p ∈ t0.parts, Gpt.allZero p.typ = true ∨ (Gpt.EntryWF p ∧ p.size < Gpt.two64))
+    (hmin : 2 * t0.lss + 16384 ≤ size) (hsz : size < Gpt.two63)
+    (hw : Gpt.write c crc t0 size = .ok (ws, t)) :
+    ∃ t', tableRead false c crc (applyWrs d ws) size t0.lss = .gpt t' ∧ t'.parts = Gpt.normParts t.parts 128 := by
+  obtain ⟨t', hr, hp, _⟩ := Gpt.read_write_fresh c crc hcrc d t0 size ws t hf hlss hg hwf hmin hsz hw
+  exact ⟨t', by simp [tableRead, hr], hp⟩
+
+/-- WITH the legacy check (the proposed repair of mbr-over-stale-gpt-reported-as-gpt), the exact condition:
+    the disk gpt.Table.Write completed on reads as GPT  ⇔  NOT (Write was told ProtectiveMBR:false AND sector 0
+    already held a legacy MBR - signature, a used entry, none protective - that mbr.Read accepts).  With a
+    protective MBR the type byte of slot 0 is 0xEE afterwards; without one Write leaves bytes 0..511 alone, so a
+    legacy MBR that was there is still there and takes precedence: that is why the repair is not applied - a GPT
+    written with ProtectiveMBR:false over a former MBR disk would come back as MBR. -/
+theorem gpt_written_reads_gpt_iff (c : Gpt.Cfg) (crc : Bytes → Nat) (hcrc : ∀ b, crc b < Gpt.two32) (d : Dev)
+    (t0 : Gpt.Table) (size : Nat) (ws : List Wr) (t : Gpt.Table)
+    (hf : Gpt.Fresh t0) (hlss : t0.lss = 512 ∨ t0.lss = 4096) (hg : t0.guid.length = 16)
+    (hwf : ∀ p ∈ t0.parts, Gpt.allZero p.typ = true ∨ (Gpt.EntryWF p ∧ p.size < Gpt.two64))
+    (hmin : (2 * (16384 / t0.lss) + 3) * t0.lss ≤ size) (hsz : size < Gpt.two63)
+    (hw : Gpt.write c crc t0 size = .ok (ws, t)) :
+    (tableRead true c crc (applyWrs d ws) size t0.lss).kind = some .gpt ↔
+      ¬ (t0.pmbr = false ∧ legacyMBR d = true ∧ (Mbr.read d size).1.isSome = true) := by
+  have hmin' : 2 * t0.lss + 16384 ≤ size := by rcases hlss with h | h <;> rw [h] at hmin ⊢ <;> omega
+  obtain ⟨t', hr, _⟩ := Gpt.read_write_fresh c crc hcrc d t0 size ws t hf hlss hg hwf hmin' hsz hw
+  cases hpm : t0.pmbr with
+  | true =>
+    have hleg : legacyMBR (applyWrs d ws) = false :=
+      legacyMBR_protective _ (gpt_write_pmbr_type c crc d t0 size ws t hf hlss hg hsz hmin hpm hw)
+    simp [tableRead, hr, hleg, TableRes.kind]
+  | false =>
+    have hfr := gpt_write_nopmbr_frame c crc d t0 size ws t hf hlss hsz hmin hpm hw
+    have hleg : legacyMBR (applyWrs d ws) = legacyMBR d := legacyMBR_congr _ _ hfr
+    have hmbr : Mbr.read (applyWrs d ws) size = Mbr.read d size := mbrRead_congr _ _ size hfr
+    simp only [tableRead, hr, hleg, hmbr, Bool.true_and]
+    cases hl : legacyMBR d <;> cases hm : (Mbr.read d size).1 <;> simp [TableRes.kind]
+
+/-- non-vacuity of the refused side: a legacy MBR (one Linux partition in slot 0) that mbr.Read accepts -/
+def legacyWitness : Dev := fun i => if i = 510 then 0x55 else if i = 511 then 0xAA else if i = 450 then 0x83 else 0
+example : legacyMBR legacyWitness = true := by decide
+set_option maxRecDepth 8000 in
+example : ((Mbr.read legacyWitness 1048576).1).isSome = true := by decide
 
 end Diskfs.Detect.C12
